@@ -592,7 +592,153 @@ pub fn c11_before_timer(_ck: &mut Checker, _sim: &mut Sim, _p: Proto, _t: u64) {
 pub fn c11_after_timer(_ck: &mut Checker, _sim: &mut Sim, _p: Proto, _t: u64) {}
 
 pub fn c01_before(_ck: &mut Checker, _sim: &mut Sim, _s: usize, _p: Proto, _d: &Bytes, _t: &Tag) {}
-pub fn c01_after(_ck: &mut Checker, _sim: &mut Sim, _s: usize, _p: Proto, _d: &Bytes, _t: &Tag) {}
+
+fn proofs_decode_equal(a: &Bytes, b: &Bytes) -> bool {
+    let pa = packed::LightClientMessageReader::from_compatible_slice(a).ok().map(|m| m.to_enum());
+    let pb = packed::LightClientMessageReader::from_compatible_slice(b).ok().map(|m| m.to_enum());
+    match (pa, pb) {
+        (
+            Some(packed::LightClientMessageUnionReader::SendLastStateProof(x)),
+            Some(packed::LightClientMessageUnionReader::SendLastStateProof(y)),
+        ) => {
+            x.last_header().as_slice() == y.last_header().as_slice()
+                && x.headers().as_slice() == y.headers().as_slice()
+                && x.proof().as_slice() == y.proof().as_slice()
+        }
+        _ => false,
+    }
+}
+
+/// Where a delivered proof differs from the canonical one. Returns (the only differences are
+/// parent chain roots of genesis headers, description).
+fn proof_difference(a: &Bytes, b: &Bytes) -> (bool, String) {
+    let pa = packed::LightClientMessageReader::from_compatible_slice(a).ok().map(|m| m.to_enum());
+    let pb = packed::LightClientMessageReader::from_compatible_slice(b).ok().map(|m| m.to_enum());
+    if let (
+        Some(packed::LightClientMessageUnionReader::SendLastStateProof(x)),
+        Some(packed::LightClientMessageUnionReader::SendLastStateProof(y)),
+    ) = (pa, pb)
+    {
+        let mut what = Vec::new();
+        let mut only_genesis_root = true;
+        if x.last_header().as_slice() != y.last_header().as_slice() {
+            what.push("last header".to_string());
+            only_genesis_root = false;
+        }
+        if x.proof().as_slice() != y.proof().as_slice() {
+            what.push("proof items".to_string());
+            only_genesis_root = false;
+        }
+        if x.headers().len() != y.headers().len() {
+            what.push(format!("header count {} vs {}", x.headers().len(), y.headers().len()));
+            only_genesis_root = false;
+        } else {
+            for i in 0..x.headers().len() {
+                let (hx, hy) = (x.headers().get(i).unwrap(), y.headers().get(i).unwrap());
+                if hx.as_slice() == hy.as_slice() {
+                    continue;
+                }
+                let n: u64 = hx.header().raw().number().unpack();
+                let rest_equal = hx.header().as_slice() == hy.header().as_slice()
+                    && hx.uncles_hash().as_slice() == hy.uncles_hash().as_slice()
+                    && hx.extension().as_slice() == hy.extension().as_slice();
+                if rest_equal {
+                    what.push(format!("parent chain root of header {} (#{})", i, n));
+                    if n != 0 {
+                        only_genesis_root = false;
+                    }
+                } else {
+                    what.push(format!("header {} (#{})", i, n));
+                    only_genesis_root = false;
+                }
+            }
+        }
+        if what.is_empty() {
+            only_genesis_root = false;
+            what.push("encoding only".into());
+        }
+        return (only_genesis_root, what.join(", "));
+    }
+    (false, "not comparable".into())
+}
+
+/// C01: the trusted chain state may change on a SendLastStateProof only if the delivered
+/// message decodes to the canonical honest answer to the outstanding request.
+pub fn c01_after(ck: &mut Checker, sim: &mut Sim, session: usize, proto: Proto, data: &Bytes, tag: &Tag) {
+    if proto != Proto::LightClient {
+        return;
+    }
+    let is_proof = packed::LightClientMessageReader::from_compatible_slice(data)
+        .ok()
+        .map(|m| matches!(m.to_enum(), packed::LightClientMessageUnionReader::SendLastStateProof(_)))
+        .unwrap_or(false);
+    if !is_proof && tag.kind != Kind::SendLastStateProof {
+        return;
+    }
+    let equivalent = tag.honest
+        || tag
+            .canonical
+            .as_ref()
+            .map(|c| c == data || proofs_decode_equal(c, data))
+            .unwrap_or(false);
+    if !equivalent {
+        sim.stat("probe.c01.mutated_proof_delivered");
+    }
+    let after = Checker::take_snap(sim);
+    let before = &ck.snap;
+    let mut changed: Vec<String> = Vec::new();
+    if before.tip_hash != after.tip_hash || before.td != after.td {
+        changed.push(format!("stored tip #{} -> #{}", before.tip_number, after.tip_number));
+    }
+    if before.last_n != after.last_n {
+        changed.push("remembered last-N headers".into());
+    }
+    for (s, d) in after.prove_digest.iter() {
+        if before.prove_digest.get(s) != Some(d) {
+            changed.push(format!("prove state of s{}", s));
+        }
+    }
+    if !changed.is_empty() {
+        sim.stat("probe.c01.proof_changed_trusted_state");
+        if !equivalent {
+            sim.stat("probe.c01.ALTERED_PROOF_ACCEPTED");
+            // which header was touched? (the genesis header carries no chain root commitment)
+            let mut clause = "altered_proof_changed_trusted_state";
+            let mut diff_note = String::new();
+            if let Some(c) = tag.canonical.as_ref() {
+                let (only_genesis_root, what) = proof_difference(c, data);
+                diff_note = what;
+                if only_genesis_root {
+                    clause = "altered_parent_chain_root_of_the_genesis_header_accepted";
+                }
+            }
+            if let Some(rest) = tag.note.strip_prefix("alter parent chain root of header ") {
+                if let (Ok(i), Some(c)) = (rest.trim().parse::<usize>(), tag.canonical.as_ref()) {
+                    let n = packed::LightClientMessageReader::from_compatible_slice(c)
+                        .ok()
+                        .and_then(|m| match m.to_enum() {
+                            packed::LightClientMessageUnionReader::SendLastStateProof(r) => r
+                                .headers()
+                                .get(i)
+                                .map(|h| Unpack::<u64>::unpack(&h.header().raw().number())),
+                            _ => None,
+                        });
+                    if n == Some(0) {
+                        clause = "altered_parent_chain_root_of_the_genesis_header_accepted";
+                    }
+                }
+            }
+            sim.violate(
+                "C01",
+                clause,
+                format!(
+                    "s{} delivered a SendLastStateProof that is not the honest answer ({}; differs in: {}); changed: {:?}",
+                    session, tag.note, diff_note, changed
+                ),
+            );
+        }
+    }
+}
 pub fn c02_before(_ck: &mut Checker, _sim: &mut Sim, _s: usize, _p: Proto, _d: &Bytes, _t: &Tag) {}
 pub fn c02_after(_ck: &mut Checker, _sim: &mut Sim, _s: usize, _p: Proto, _d: &Bytes, _t: &Tag) {}
 pub fn c02_scan(_ck: &mut Checker, _sim: &mut Sim, _when: &str) {}
